@@ -2603,7 +2603,9 @@ class SwiftCompilerShellCommand : public ExternalCommand {
         .combine(importPaths)
         .combine(tempsPath)
         .combine(otherArgs)
-        .combine(isLibrary);
+        .combine(isLibrary)
+        .combine(enableWholeModuleOptimization)
+        .combine(numThreads);
   }
 
   /// Get the path to use for the output file map.
